@@ -96,7 +96,10 @@ STATIC = {'known': {'fa': 'pqr', 'sub.fb': 'pq', 'm1.K': 'pq', 'cons': 'xy'},
 LATE_IMPORT = 'import c15late'
 LATE_NAME = 'late_fn'
 LATE_SOURCE = 'import gin\n\n@gin.configurable\ndef late_fn(p=None, zz=None):\n  return (p, zz)\n'
-DYN = {'known': {'dm.fa': 'pqr', 'dm.K': 'pq', 'c15dyn.other.gb': 'pq', 'dm.cons': 'xy'},
+# c15dyn.other.lazy_gb is provided through the module's __getattr__ (PEP 562): Python resolves it
+# through the file's import, so it is a known name like any other module attribute
+DYN = {'known': {'dm.fa': 'pqr', 'dm.K': 'pq', 'c15dyn.other.gb': 'pq', 'dm.cons': 'xy',
+                 'c15dyn.other.lazy_gb': 'pq'},
        'unknown': ['dm.unk', 'nomod.fn', 'c15dyn.other.Unk3', 'am.fn'],
        'header': ['from __gin__ import dynamic_registration', 'import c15dyn.mod as dm',
                   'import c15dyn.other']}
@@ -114,7 +117,10 @@ DYN_SOURCES = {
     'c15dyn/mod.py': ('def fa(p=None, q=None, r=None):\n  return (p, q, r)\n\n'
                       'class K:\n  def __init__(self, p=None, q=None):\n    self.p, self.q = p, q\n\n'
                       'def cons(x=None, y=None):\n  return (x, y)\n'),
-    'c15dyn/other.py': 'def gb(p=None, q=None):\n  return (p, q)\n',
+    'c15dyn/other.py': ('def gb(p=None, q=None):\n  return (p, q)\n\n'
+                        'def _lazy_gb(p=None, q=None):\n  return (p, q)\n\n'
+                        'def __getattr__(name):\n  if name == "lazy_gb":\n    return _lazy_gb\n'
+                        '  raise AttributeError(name)\n'),
 }
 MISSING_IMPORTS = ['import c15_no_such_module', 'from c15_no_such_pkg import thing',
                    'import c15dyn_missing.sub as zz',
